@@ -57,6 +57,9 @@ def _engine_check(prop, cfgs, level_text, assumptions, modes=(0,), queries=False
         if queries:
             jobs += harness_jobs("queries", prop, tier, ["plain"])
             hs.append("queries")
+        if prop in ("C01", "C02", "C03", "C04", "C05", "C08"):
+            jobs += mbconv_jobs(prop, tier, ["plain", "noslack"] if "noslack" in cfgs else ["plain"])
+            hs.append("mbconv")
         for h in EXTRA_HARNESSES.get(prop, []):
             jobs += harness_jobs(h, prop, tier, ["plain", "noslack"] if (h in ("fmt", "misc") and "noslack" in cfgs) else ["plain"], nw=1 if h == "misc" else 4)
             hs.append(h)
@@ -363,6 +366,35 @@ def _c19(tier):
 
 
 CHECKS["C19"] = _c19
+
+
+def mbconv_jobs(prop, tier, cfgs):
+    jobs = []
+    for cfg in cfgs:
+        li = build.build_lib(cfg); exe = build.build_harness(li, "mbconv", ["mbconv.c"])
+        for loc in ("C.UTF-8", "C"):
+            n = 4 if tier == "thorough" else 2
+            for i in range(n):
+                jobs.append(("mbconv/%s/%s/%d" % (cfg, loc, i), [exe, "--prop", prop, "--tier", tier, "--seed", str(seed()), "--cfg", cfg, "--locale", loc, "--worker", "%d/%d" % (i, n)]))
+    return jobs
+
+
+def _c15(tier):
+    t0 = time.time()
+    res = Results("C15")
+    run_workers(mbconv_jobs("C15", tier, ["plain"]), res)
+    res.evaluations = res.counters.get("c15_decided", 0)
+    return finish(res, tier, "exploration",
+                  "all strings of 0..3 (quick) / 0..4 (thorough) characters over the four UTF-8 widths {U+41, U+E9, U+20AC, U+1F600} x invalid sequences (lone continuation, truncated lead, "
+                  "overlong, surrogate, > U+10FFFF; wide: surrogate and > 10FFFF values) at every position x len in {n-1, n, n+1, large} x dmax in {k, k+1, k+3, 1} x dest NULL (size query) x "
+                  "object size known/unknown x locales C.UTF-8 and C, for the six exports; reference = libc with the same len on private buffers; round trips wcs->mbs->wcs; "
+                  "query-then-convert; state reuse after errors; distinct = (function, validity class, len class, dmax class, length, outcome)", t0,
+                  extra_cov=dict(builds=["plain"], harnesses=["mbconv"], locales=["C.UTF-8", "C"], invalid_input_cases=res.counters.get("invalid_input_cases", 0),
+                                 round_trips=res.counters.get("round_trips", 0), exhaustive=True, exhaustive_scope="strings over the 4 code points up to the stated length"),
+                  assumptions=FENCE_ASSUME + ["glibc's converters are the reference; no stateful encoding is installed in this image"], min_evals=1000)
+
+
+CHECKS["C15"] = _c15
 
 
 def _c16(tier):
